@@ -240,7 +240,11 @@ func (c *Check) Finish() int {
 	}
 	eb, _ := json.MarshalIndent(ev, "", " ")
 	_ = os.MkdirAll(filepath.Join(Root(), "evidence"), 0o755)
-	if err := os.WriteFile(filepath.Join(Root(), "evidence", c.ID+".json"), eb, 0o644); err != nil {
+	evName := c.ID + ".json"
+	if n := os.Getenv("VERIF_EVIDENCE_NAME"); n != "" {
+		evName = n // partial evidence of a check made of two parts (merged by the second part)
+	}
+	if err := os.WriteFile(filepath.Join(Root(), "evidence", evName), eb, 0o644); err != nil {
 		fmt.Fprintln(os.Stderr, "cannot write evidence:", err)
 		return 2
 	}
